@@ -18,14 +18,18 @@ package console
 import (
 	"fmt"
 	"image/color"
+	"io/ioutil"
 	"runtime/debug"
 	"strings"
 	"testing"
 	"unsafe"
 
+	"github.com/ProjectSerenity/firefly/kernel"
 	"github.com/ProjectSerenity/firefly/kernel/cpu"
 	"github.com/ProjectSerenity/firefly/kernel/device/video/console/font"
 	"github.com/ProjectSerenity/firefly/kernel/device/video/console/logo"
+	"github.com/ProjectSerenity/firefly/kernel/mm"
+	"github.com/ProjectSerenity/firefly/kernel/mm/vmm"
 	"github.com/ProjectSerenity/firefly/kernel/multiboot"
 	"github.com/ProjectSerenity/firefly/kernel/zzverif/vlib"
 )
@@ -74,6 +78,10 @@ type c19Mach struct {
 	guardRef  []byte
 	before    []byte
 	placement string
+	relaid    bool   // the console had an earlier layout (another font) before the final one
+	viaInit   bool   // brought up through the real DriverInit (map seam) instead of assigning the framebuffer
+	mapSizes  []uint64
+	fbLen     int // length of the framebuffer slice DriverInit built
 	scr       uint64 // scramble state
 
 	logoChecked bool
@@ -230,16 +238,50 @@ func c19Build(spec c19Spec, r *vlib.Rand) (m *c19Mach, setupPanic interface{}, s
 		m.scramble(r.U64())
 
 		cons := NewVesaFbConsole(uint32(g.width), uint32(g.height), uint8(spec.bpp), uint32(g.pitch), ci, 0)
-		cons.loadDefaultPalette() // fb still nil: nothing to recolour
+		if strings.HasPrefix(m.placement, "arena-head") && len(m.fb) > 0 {
+			// the window starts on a page boundary: bring the console up the way the kernel does, through the
+			// real DriverInit with the region-mapping seam answering with the window's address
+			saved := mapRegionFn
+			mapRegionFn = func(_ mm.Frame, size uintptr, _ vmm.PageTableEntryFlag) (mm.Page, *kernel.Error) {
+				m.mapSizes = append(m.mapSizes, uint64(size))
+				return mm.PageFromAddress(uintptr(unsafe.Pointer(&m.fb[0]))), nil
+			}
+			var ierr *kernel.Error
+			setupPanic, stack = vlib.Protect(func() { ierr = cons.DriverInit(ioutil.Discard) })
+			mapRegionFn = saved
+			m.viaInit = true
+			if setupPanic != nil || ierr != nil {
+				if setupPanic == nil {
+					setupPanic = "DriverInit returned " + ierr.Message
+				}
+				m.dev, m.drv = cons, "fb"
+				return m, setupPanic, stack
+			}
+			if len(cons.fb) > 0 && &cons.fb[0] != &m.fb[0] {
+				cons.fb = m.fb
+			}
+			m.fbLen = len(cons.fb)
+		} else {
+			cons.loadDefaultPalette() // fb still nil: nothing to recolour
+		}
 		for i := 16; i < 256; i++ {
 			if r.Chance(3, 4) {
 				cons.palette[i] = color.RGBA{R: uint8(r.U64()), G: uint8(r.U64()), B: uint8(r.U64()), A: 0xff}
 			}
 		}
-		cons.fb = m.fb
+		if !m.viaInit {
+			cons.fb = m.fb
+		}
 		var lgUsed *logo.Image
 		var logoBefore []byte
 		setupPanic, stack = vlib.Protect(func() {
+			if r.Chance(1, 5) && g.height > 0 {
+				// an earlier layout: the console was first given another font (lower glyphs, so that it had
+				// rows of text even where the final layout has none) before the logo and the final font arrive
+				gh0 := r.Range(1, int(pmin64(g.height, 16)))
+				cons.SetFont(&font.Font{Name: "c19earlier", GlyphWidth: 8, GlyphHeight: uint32(gh0), BytesPerRow: 1, Data: r.Bytes(256 * gh0)})
+				m.relaid = true
+			}
 			if spec.logoH > 0 {
 				np := r.Range(1, 16)
 				lg := &logo.Image{Width: uint32(spec.logoW), Height: uint32(spec.logoH), Align: spec.logoAlign,
@@ -281,6 +323,13 @@ func c19Build(spec c19Spec, r *vlib.Rand) (m *c19Mach, setupPanic interface{}, s
 	}
 	m.before = make([]byte, len(m.fb))
 	return m, setupPanic, stack
+}
+
+func pmin64(a, b int64) int64 {
+	if a < b {
+		return a
+	}
+	return b
 }
 
 // guardsFresh is guardsIntact before guardRef exists (right after construction).
@@ -643,7 +692,7 @@ func TestVerifC19(t *testing.T) {
 	run := vlib.Start(t, "C19")
 	defer run.Finish()
 	run.SetRule("case = one console (3 of 4: VesaFbConsole with depth in {8,15,16,24,32}, shipped or synthetic 8-16 px font, grid 1..12 x 1..8 cells plus optional right/bottom remainder, pitch padding in {0,1,3,64,random}, synthetic logo of random height/width/alignment, random colour-mask layout and palette; 1 of 4: VgaTextConsole 1x1..132x60; 1 console in 16 has a grid without any cell: narrower than a glyph, lower than logo + one glyph row, 0 columns or 0 rows in text mode; thorough: 1 framebuffer in 8 up to 40x25 cells) placed as a window between pattern guards or against a PROT_NONE page, followed by 24-64 single Write/Fill/Scroll calls whose x,y,w,h,lines come from the classes {0,1,mid,last,last+1,2^31,2^32-1,2^32-last,remaining,remaining+-1,sum=2^32-1,sum=2^32,random}; the window is re-scrambled before every call and every byte is compared with the allowed-value set afterwards. non-trivial = case with at least one in-grid Write, one Fill whose extent was clipped at an edge and one Scroll that moved at least one line; distinct = fingerprint of the console spec and the argument list")
-	run.Assume("port I/O (portWriteByteFn) is stubbed; the console is constructed in-package (fb slice set directly, loadDefaultPalette, SetLogo, SetFont) instead of through DriverInit/mapRegionFn; an 8-bit colour component is reduced to a mask of n bits by keeping its n most significant bits; glyph bitmaps are MSB-first")
+	run.Assume("port I/O (portWriteByteFn) is stubbed; the console is constructed in-package (fb slice set directly, loadDefaultPalette, SetLogo, SetFont); where the window starts on a page boundary (placement arena-head) it is brought up through the real DriverInit with mapRegionFn answering with the window's address; one framebuffer console in five is first given another font with lower glyphs (an earlier layout) before the logo and the final font; an 8-bit colour component is reduced to a mask of n bits by keeping its n most significant bits; glyph bitmaps are MSB-first")
 	run.Assume("colour masks lie in the low 24 bits of 24/32-bpp pixels and in the low bpp bits of 15/16-bpp pixels; bits of a pixel outside every colour mask are don't-care inside an addressed cell")
 
 	defer func() { portWriteByteFn = cpu.PortWriteByte }()
@@ -678,6 +727,20 @@ func TestVerifC19(t *testing.T) {
 		if sp != nil {
 			c.Violation(m.drv+":setup:panic", map[string]interface{}{"what": "SetLogo/SetFont panicked", "input": m.g.String(), "panic": fmt.Sprint(sp), "site": vlib.PanicSite(st)})
 			return
+		}
+		if m.relaid {
+			count("consoles_laid_out_twice", 1)
+		}
+		if m.viaInit {
+			count("consoles_brought_up_through_driverinit", 1)
+			if m.fbLen != len(m.fb) {
+				c.Violationf(m.drv+":init:framebuffer-length", "%s: DriverInit built a framebuffer slice of %d bytes, height*pitch is %d (mapping requests: %v)", m.g.String(), m.fbLen, len(m.fb), m.mapSizes)
+				return
+			}
+			if ok, off := m.guardsFresh(); !ok {
+				c.Violationf(m.drv+":init:guard-touched", "%s: DriverInit changed memory outside the framebuffer at offset %d", m.g.String(), off)
+				return
+			}
 		}
 		if m.logoChecked {
 			count("logos_compared", 1)
